@@ -49,7 +49,8 @@ def run(chk):
     nseq = len(ops)
     for _ in range(3000 if thorough else 600):
         ops.append("fwinit")
-        ids = rng.choice([[0, 1, 2, 3, 4], list(range(1, 40)), [0, 65535, 7, 7727]])
+        ids = [[0, 1, 2, 3, 4], list(range(1, 40)), [0, 65535, 7, 7727], [0x0080, 0x12ff, 0x80fe, 0x7f80, 0xff80, 0x00ff, 0x8000],
+               [rng.randrange(65536) for _ in range(12)]][rng.randrange(5)]
         outstanding = []
         for _ in range(rng.randrange(1, 70)):
             if rng.random() < 0.6:
@@ -83,7 +84,8 @@ def server_part(chk):
         td = b"t.example.com"
         h.send("cfg 1 %s 0a000001 27 %s 1130 00000000 5353 7f000001 %s" % (vlib.hx(b"pw"), vlib.hx(td), "00" * 15 + "01"))
         window = []         # (asker address, id) of forwarded queries, oldest first
-        ids = rng.choice([[0, 1, 2, 3, 4], list(range(1, 40)), [0, 65535, 7, 7727]])
+        ids = [[0, 1, 2, 3, 4], list(range(1, 40)), [0, 65535, 7, 7727], [0x0080, 0x12ff, 0x80fe, 0x7f80, 0xff80, 0x00ff, 0x8000],
+               [rng.randrange(65536) for _ in range(12)]][run_i % 5]
         for _ in range(rng.randrange(20, 90)):
             if h.dead:
                 break
